@@ -39,7 +39,8 @@ fn stream_of(h: &History, sub: SubId) -> Vec<(ActId, St, Pos)> {
 pub fn c09_build(raw: &Raw, _tier: Tier, _sched: bool) -> Scenario {
     let mut b = ScnB::new();
     let cap = CAPS[pick(knob(raw, 0), CAPS.len())];
-    let s = b.store("c09", cap, Pol::Block, CTORS[pick(knob(raw, 1), 3)].clone());
+    // a third of the stores discard on a full queue (the lifecycle clauses do not depend on the policy)
+    let s = b.store("c09", cap, POLS_MOSTLY_BLOCK[pick(knob(raw, 15), POLS_MOSTLY_BLOCK.len())], CTORS[pick(knob(raw, 1), 3)].clone());
     let nred = 1 + pick(knob(raw, 2), 2);
     let reds: Vec<CompId> = (0..nred).map(|_| b.reducer(s)).collect();
     let nsubs = 2 + pick(knob(raw, 3), 4);
@@ -329,6 +330,9 @@ pub fn c10_build(raw: &Raw, _tier: Tier, _sched: bool) -> Scenario {
     }
     // terminator: unsubscribe(C) at a generated point (or leave it to the final stop)
     let term = if held { 0 } else { knob(raw, 7) % 4 };
+    // a third of the cases: close() comes first, so the stop() that has to wait for C's backlog
+    // is not the call that closed the dispatch channel
+    let close_first = knob(raw, 9) % 3 == 0;
     if term != 0 {
         let t = b.thread();
         let lead = pick(knob(raw, 8), 5);
@@ -339,6 +343,9 @@ pub fn c10_build(raw: &Raw, _tier: Tier, _sched: bool) -> Scenario {
             b.s.threads[t].push(Op::Unsubscribe { store: s, sub: c });
             b.s.threads[t].push(Op::Unsubscribe { store: s, sub: c });
         } else {
+            if close_first {
+                b.s.threads[t].push(Op::Close { store: s });
+            }
             b.s.threads[t].push(Op::Stop { store: s, via_trait: false });
         }
         if term == 3 {
@@ -347,6 +354,9 @@ pub fn c10_build(raw: &Raw, _tier: Tier, _sched: bool) -> Scenario {
             let lead = pick(knob(raw, 15), 5);
             for i in 0..lead {
                 b.s.threads[t2].push(Op::Stall(stall_of(knob(raw, 14).wrapping_add(i as u16 * 5))));
+            }
+            if close_first {
+                b.s.threads[t2].push(Op::Close { store: s });
             }
             b.s.threads[t2].push(Op::Stop { store: s, via_trait: false });
         }
@@ -364,6 +374,9 @@ pub fn c10_build(raw: &Raw, _tier: Tier, _sched: bool) -> Scenario {
         }
         b.s.threads[ct].push(Op::Stall(stall_of(knob(raw, 13))));
         b.s.threads[ct].push(Op::GateOpen { gate: g });
+    }
+    if close_first {
+        b.s.epilogue.push(Op::Close { store: s });
     }
     b.s.epilogue.push(Op::Stop { store: s, via_trait: false });
     b.finish()
@@ -529,7 +542,7 @@ pub fn c10_check(scn: &Scenario, h: &History) -> Outcome {
 
 pub static C10: Profile = Profile {
     id: "C10",
-    rule: "proptest scenarios: a triple registered back-to-back in the prelude - direct D1, channeled C (capacity 1-4, each policy), direct D2 - optionally a second channeled subscriber; 1-3 producers; C's callback is gated (tokens released by a controller thread; under drop policies half of the gated cases hold C without any token until every producer has finished, which deadlocks if reducing waits for C) or stalls; unsubscribe(C) (twice), stop(), or both racing on two threads, at a generated point. Oracle O-CHAN: C's calls all on one thread that is not the reducer context, a client thread or another channeled subscriber's thread; C's (state,action) stream vs D1's (equal prefix under BlockOnFull, in-order subsequence under drop policies, newest delivered under DropOldest); everything D2 saw before Inv(unsubscribe C) delivered before its Ret (flush); nothing after; all accepted actions reduced. Non-trivial = C lagged by >= capacity+1 notifications at some point AND the unsubscribe/stop came while an item was still queued for C; distinct by scenario hash.",
+    rule: "proptest scenarios: a triple registered back-to-back in the prelude - direct D1, channeled C (capacity 1-4, each policy), direct D2 - optionally a second channeled subscriber; 1-3 producers; C's callback is gated (tokens released by a controller thread; under drop policies half of the gated cases hold C without any token until every producer has finished, which deadlocks if reducing waits for C) or stalls; unsubscribe(C) (twice), stop() (in a third of the cases preceded by close()), or both racing on two threads, at a generated point. Oracle O-CHAN: C's calls all on one thread that is not the reducer context, a client thread or another channeled subscriber's thread; C's (state,action) stream vs D1's (equal prefix under BlockOnFull, in-order subsequence under drop policies, newest delivered under DropOldest); everything D2 saw before Inv(unsubscribe C) delivered before its Ret (flush); nothing after; all accepted actions reduced. Non-trivial = C lagged by >= capacity+1 notifications at some point AND the unsubscribe/stop came while an item was still queued for C; distinct by scenario hash.",
     raw: raw3,
     build: c10_build,
     check: c10_check,
@@ -574,6 +587,18 @@ pub fn c14_build(raw: &Raw, _tier: Tier, _sched: bool) -> Scenario {
             let o = ActOpts { reducers: &reds, middlewares: &[], effects: false, followups: false, veto: false, keeps: (r.k >> 8) % 4 == 0, panics: false };
             let a = scripted_action(&mut b, s, r, &o);
             b.s.threads[th].push(Op::Dispatch { act: a, via: via_of(r) });
+        }
+    }
+    // a third of the cases: a subscriber registered *before* the iterators leaves in the middle of
+    // a notification round (it unsubscribes itself from inside its callback): the iterators,
+    // which come later in the list, must not lose that round
+    if knob(raw, 13) % 3 == 0 {
+        let acts: Vec<ActId> = b.s.threads.iter().flatten().filter_map(|o| match o { Op::Dispatch { act, .. } => Some(*act), _ => None }).collect();
+        if !acts.is_empty() {
+            let e = b.sub(SubKind::Direct);
+            b.s.prelude.insert(1, Op::Subscribe { store: s, sub: e });
+            let trigger = acts[pick(knob(raw, 14), acts.len())];
+            b.sub_mut(e).on_notify_ops.push((trigger, vec![Op::Unsubscribe { store: s, sub: e }]));
         }
     }
     // consumer
